@@ -211,9 +211,12 @@ AddRes(S, ca) ==
        IN IF ty.k = "err" THEN R("err", RemoveLast(pushed, gh))      \* ... and popped again on failure
           ELSE LET typed == [pushed EXCEPT ![ci].graphs[gi].nodes[n + 1].ty = ty]
                IN IF Weight(ty) >= 2 THEN R("err", RemoveLast(typed, gh))     \* invalid / too large node size
+                  \* total size counter (try_update_total_size, graphs.rs:4489): reads the operation's OWN type of an
+                  \* Input / Constant and rejects an invalid one -- reachable through add_node_with_type only, where the
+                  \* supplied type, not the operation's, was registered
                   ELSE IF /\ ca.op.o \in {"Input", "X:Constant"}
-                          /\ TotW(S[ci]) + Weight(ca.op.t) >= 2
-                       THEN R("err", RemoveLast(typed, gh))                   \* total size counter
+                          /\ (~ValidT(ca.op.t) \/ TotW(S[ci]) + Weight(ca.op.t) >= 2)
+                       THEN R("err", RemoveLast(typed, gh))
                   ELSE R("ok", typed)
 
 \* Graph::set_output_node (graphs.rs:3212)
